@@ -25,6 +25,9 @@ def configs(tier):
         add(spec('global', 'clenshaw-curtis', 2, 1, 2), 1); add(spec('global', 'gauss-legendre', 1, 2, 4, transform=1), 1); add(spec('global', 'clenshaw-curtis', 2, 2, 2, transform=1), 1); add(spec('localp', 'localp', 2, 2, 2, order=1, transform=1), 1, 24); add(spec('sequence', 'rleja', 2, 3, 2, transform=1), 1); add(spec('global', 'leja', 2, 1, 3), 2)
         add(spec('sequence', 'rleja', 2, 1, 3), 1); add(spec('sequence', 'leja', 2, 1, 3, limits=1), 1); add(spec('sequence', 'rleja', 2, 2, 1), 1); add(spec('global', 'clenshaw-curtis', 2, 1, 3, limits=2), 1); add(spec('sequence', 'min-delta', 2, 1, 4, 'iptotal', aniso=1, limits=2), 2)   # directions whose largest level is 0 / 1 / 2
         add(spec('sequence', 'min-lebesgue', 1, 1, 6, transform=1), 2)
+        # chain rule under a domain transform for the rule families that have their own Jacobian branch (unbounded domains: shift + rate)
+        add(spec('global', 'gauss-hermite', 2, 1, 2, transform=1, alpha=0.0), 1); add(spec('global', 'gauss-hermite-odd', 1, 2, 2, transform=1, alpha=1.0), 1); add(spec('global', 'gauss-laguerre', 2, 1, 2, transform=1, alpha=0.5), 1); add(spec('global', 'gauss-laguerre-odd', 1, 1, 2, transform=1, alpha=0.0), 1)
+        add(spec('global', 'gauss-chebyshev1', 1, 1, 3, transform=1), 1); add(spec('global', 'gauss-jacobi', 2, 1, 2, transform=1, alpha=0.5, beta=1.0), 2); add(spec('fourier', 'fourier', 2, 1, 1, transform=1), 1)
         add(spec('fourier', 'fourier', 1, 1, 1), 1); add(spec('fourier', 'fourier', 2, 1, 1), 2)
         add(spec('wavelet', 'wavelet', 1, 1, 2, order=1), 1, 12)
     else:
@@ -35,7 +38,7 @@ def configs(tier):
         for rule in NESTED_GLOBAL[:10] + ['gauss-legendre', 'chebyshev', 'gauss-chebyshev2', 'gauss-hermite', 'gauss-laguerre']:
             if rule == 'clenshaw-curtis-zero': continue
             fast = rule in ('clenshaw-curtis', 'fejer2', 'gauss-patterson', 'rleja-double2', 'rleja-double4')
-            tr = 0 if ('hermite' in rule or 'laguerre' in rule) else 1
+            tr = 1
             for dep in (0, 1): add(spec('global', rule, 2, 1, dep, transform=tr), 1)
             add(spec('global', rule, 3, 1, 2, transform=tr), 1); add(spec('global', rule, 3, 2, 2), 2); add(spec('global', rule, 4, 1, 1 if fast else 2), 1)
             add(spec('global', rule, 2, 1, 2 if fast else 3, limits=1), 1); add(spec('global', rule, 2, 1, 3 if fast else 4, limits=2), 2)
